@@ -25,8 +25,7 @@ MS = 'mystic.math.measures'
 
 def _ref(ctx, anchor, src, what):
     f = ctx.func(anchor)
-    got = SB.summary(f.node)
-    want = SB.summary_of_source(src)
+    got, want = SB.agree(f.node, src)
     ctx.stats['terms_compared'] += len(got)
     ctx.check(got == want, f.qualname, what, '%s differs from the layout contract: %s' % (f.qualname, SB.diff(got, want)), f, f.node)
 
@@ -89,8 +88,7 @@ def one_packer(ctx):
     return _weights
 ''')
     ctx.check(got == want, 'product_measure.weights', 'product over each packed tuple of factor weights', 'product weights differ: %s' % SB.diff(got, want), fw, fw.node)
-    got = SB.summary(fp.node)
-    want = SB.summary_of_source('def __positions(self):\n    return _pack(self.pos)\n')
+    got, want = SB.agree(fp.node, 'def __positions(self):\n    return _pack(self.pos)\n')
     ctx.check(got == want, 'product_measure.positions', '_pack(self.pos)', 'product positions differ: %s' % SB.diff(got, want), fp, fp.node)
     for prop, attr in (('wts', 'weights'), ('pos', 'positions')):
         pr = ctx.model.lookup_prop(pm, prop)
@@ -264,7 +262,6 @@ def measure_setters_and_measure_constraints(ctx):
     ast.fix_missing_locations(outer)
     for node, src, what, label in ((outer, ref_outer, 'a single dict is wrapped in a tuple; nothing is merged', 'impose_measure'),
                                    (g.node, ref_inner, 'every collapse of every dict is applied per call, tracking first, then noweight', 'impose_measure.func')):
-        got = SB.summary(node)
-        want = SB.summary_of_source(src)
+        got, want = SB.agree(node, src)
         ctx.stats['terms_compared'] += len(got)
         ctx.check(got == want, label, what, '%s differs from its confirmed behaviour: %s' % (label, SB.diff(got, want)), f, f.node if node is outer else g.node)
